@@ -8,7 +8,10 @@ PROPS["C05"] = dict(
                              "toc.no-file-digest", "toc.no-chunk-digest", "toc.inner-offset", "toc.multi-chunk",
                              "toc.trailing-bytes", "toc.trailing-bytes.long", "toc.forward-hardlink", "toc.empty",
                              "result.reject.db", "result.reject.memory", "result.accept.both",
-                             "layers.shared-db", "layers.bad-neighbour", "op.prereader.callbacks"])],
+                             "layers.shared-db", "layers.bad-neighbour", "op.prereader.callbacks",
+                             "sched.coalesce.doubleclose", "sched.coalesce.raw", "sched.batch-failure-injected.root",
+                             "sched.batch-failure-injected.nodes", "sched.batch-failure-injected.nodes-streams",
+                             "sched.batch-failure-injected.close"])],
     rule="a random tar (dirs, files of 0..4 chunks, symlinks, hardlinks incl. chains, devices, fifos, xattrs incl. empty values, "
          "name prefixes ./ / ../) is converted by the real estargz.Writer (gzip level, ChunkSize 16..300 or default, MinChunkSize "
          "0..5000 = inner-offset streams); its TOC is decoded and mutated (0..4 ops: drop a dir entry = implicit parent, repeat a dir "
@@ -16,7 +19,10 @@ PROPS["C05"] = dict(
          "add xattrs, set modtimes, explicit/implicit last chunk size; 1 in 12 cases one malformed op: dangling hardlink, hardlink "
          "to a directory, chunk table with a gap, swapped chunks, chunk first) and re-wrapped with 0..9000 bytes of trailing whitespace; "
          "both stores open it (db: up to 4 layers opened concurrently in ONE bolt file under a random open/close history, optionally with "
-         "a failing neighbour layer) and are walked completely (RootID, GetAttr, GetChild, ForeachChild, GetOffset, OpenFile + "
+         "a failing neighbour layer; in 1 of 5 cases and 3 corpus cases the bolt DB runs with MaxBatchSize 2 / long MaxBatchDelay and, whenever a layer is "
+         "parked inside one of its db.Batch call sites (root node, metadata, streams, Close - detected by a bounded goroutine-dump poll), a FAILING "
+         "Batch call of a neighbour (second Close of a closed layer, or a failing transaction function) is queued behind it so that bolt rolls back "
+         "and re-runs the healthy function) and are walked completely (RootID, GetAttr, GetChild, ForeachChild, GetOffset, OpenFile + "
          "ChunkEntryForOffset at every chunk boundary +-1, ReadAt whole and from the middle, OpenFileWithPreReader read chunk by chunk as fs/reader does "
          "with every callback chunk checked against the source bytes and its digest, Clone, Close, TOCDigest); "
          "non-trivial = accepted by memory with >= 4 nodes; distinct = distinct Coq case term",
